@@ -172,6 +172,10 @@ def plan(ctx):
 def run(ctx):
     items = plan(ctx)
     tot, outcomes, verdicts = PC.run_items(ctx, items, _work, sample_every=max(1, len(items) // 4))
+    from .. import realpar
+    real = realpar.run_real(ctx, realpar.programs_c04(ctx.tier), "C04", nchunks=5)
+    ctx.sample({"real_backend_part": "threading / loky / multiprocessing x batch_size x pre_dispatch x return_as x {task 0 / middle / last fails, "
+                                     "input iterator fails at step 0 / 3}, then a second call on the same object; one OS-chosen schedule each", **real})
     ctx.rule = ("programs of 2-3 calls on one Parallel object over {ok, failing task at first/second/last/all positions, "
                 "failing input iterator at first/second/last step, never-completing task + timeout} x n_jobs x batch_size x "
                 "pre_dispatch x return_as x with-block or not x {pending work dropped on abort, zombie completions that the "
@@ -179,14 +183,21 @@ def run(ctx):
                 "cover + seed-rotated 1/40 of the rest; thorough = full product. distinct_nontrivial = distinct outcomes")
     ctx.exhaustive = True
     ctx.assumptions += ["same environment model and granularity as C01",
+                        "real-backend part: configuration space exhaustive, schedules chosen by the OS; binds the environment model to the shipped backends",
                         "zombie batches run their tasks when the environment completes them; such late executions are not counted against the later call"]
     return {"states": tot["states"], "transitions": tot["transitions"],
             "traces_validated_against_impl": tot["execs"], "evaluations": tot["execs"],
             "distinct_nontrivial": len(outcomes), "configurations": tot["configs"],
-            "scheduling_points_executed": tot["points"], "verdicts": dict(verdicts)}
+            "scheduling_points_executed": tot["points"], "verdicts": dict(verdicts), **real}
 
 
 def replay(data):
+    if data.get("part") == "real":
+        from .. import realpar
+        rc = realpar.replay_real(data)
+        if rc:
+            print("VIOLATION property=C04 replay=<this file>")
+        return rc
     from .. import parharness as H
     cfg = data["cfg"]
     cfg["program"] = [tuple(s) for s in cfg["program"]]
